@@ -107,15 +107,26 @@ package argmapper
 //@   ensures  [frame] unchanged(a.named) && builderFrame(a)
 //@   assigns  NamedM, TypedSubM
 
+// everything about a builder except its converter lists
+//@ ghost builderRestKept(a *argBuilder) bool =
+//@     kept(argBuilder.logger, argBuilder.named, argBuilder.namedSub, argBuilder.typed, argBuilder.typedSub, argBuilder.redefining, argBuilder.filterInput, argBuilder.filterOutput, argBuilder.funcName, argBuilder.funcOnce)
+//@     && forall(x, *argBuilder, imp(old(allocated(x)) && x != a, x.convs == old(x.convs) && x.convGens == old(x.convGens)))
+
 //@ func ConverterFunc$1
 //@   requires a != nil
-//@   ensures  result == nil
+//@   ensures  result == nil && builderRestKept(a) && a.convGens == old(a.convGens)
+//@   ensures  [appends-non-nil] len(a.convs) >= old(len(a.convs)) && forall(j, int, imp(0 <= j && j < old(len(a.convs)), a.convs[j] == old(a.convs[j]))) && forall(j, int, imp(0 <= j && j < len(a.convs), a.convs[j] != nil || (j < old(len(a.convs)))))
+//@   ensures  [frame] sliceskeptx([]*Func, a.convs) && (sref(a.convs) == sref(old(a.convs)) || fresh(a.convs))
 //@   assigns  argBuilder.convs, []*Func
+//@   loop 1 invariant a != nil && builderRestKept(a) && a.convGens == old(a.convGens) && sliceskeptx([]*Func, a.convs) && (sref(a.convs) == sref(old(a.convs)) || fresh(a.convs)) && soff(a.convs) == soff(old(a.convs)) || fresh(a.convs)
+//@   loop 1 invariant len(a.convs) >= old(len(a.convs)) && forall(j, int, imp(0 <= j && j < old(len(a.convs)), a.convs[j] == old(a.convs[j]))) && forall(j, int, imp(0 <= j && j < len(a.convs), a.convs[j] != nil || (j < old(len(a.convs)))))
 
 //@ func ConverterGen$1
 //@   requires a != nil
-//@   ensures  result == nil
+//@   ensures  result == nil && builderRestKept(a) && a.convs == old(a.convs)
+//@   ensures  [frame] sliceskeptx([]ConverterGenFunc, a.convGens)
 //@   assigns  argBuilder.convGens, []ConverterGenFunc
+//@   loop 1 invariant a != nil && builderRestKept(a) && a.convs == old(a.convs) && sliceskeptx([]ConverterGenFunc, a.convGens)
 
 //@ func FilterInput$1
 //@   requires a != nil
